@@ -36,14 +36,6 @@ Definition updates_are_leavesb (V c : cmap) : bool :=
 (* the change carries its transaction index; the stored values are older *)
 Definition stampedb (i : N) (c : cmap) : bool := forallb (fun '(_, u) => pv_index u =? i) c.
 Definition olderb (i : N) (M : cmap) : bool := forallb (fun '(_, e) => pv_index e <? i) M.
-(* a deleted path that is not itself stored has no live value beneath it *)
-Definition deletes_storedb (V c : cmap) : bool :=
-  forallb (fun '(d, u) => negb (pv_deleted u) ||
-             match lookup d V with
-             | Some _ => true
-             | None => forallb (fun '(k, x) => pv_deleted x || negb (is_path_below k d)) V
-             end) c.
-
 (* all hypotheses of the rollback theorem: [m] the stored map, [vw] the loaded view, [ch] the change of transaction
    [i], [j] the transaction index of the rollback *)
 Definition rollback_wf (i j : N) (m vw ch : cmap) : bool :=
@@ -162,20 +154,6 @@ Proof.
   cbv beta in Y. rewrite D2 in Y. cbn in Y. apply negb_true_iff in Y. unfold below in Hb. congruence.
 Qed.
 
-Lemma deletes_storedb_spec V c : nd V -> nd c -> deletes_storedb V c = true -> deletes_stored V c.
-Proof.
-  intros NV Nc H d u E D. unfold deletes_storedb in H.
-  pose proof (proj1 (forallb_lookup (fun d u => negb (pv_deleted u) ||
-             match lookup d V with
-             | Some _ => true
-             | None => forallb (fun '(k, x) => pv_deleted x || negb (is_path_below k d)) V
-             end) c Nc) H d u E) as X.
-  cbv beta in X. rewrite D in X. cbn [negb orb] in X. destruct (lookup d V) eqn:EV; [left; discriminate|]. right.
-  intros k x E2 D2 Hb.
-  pose proof (proj1 (forallb_lookup (fun k x => pv_deleted x || negb (is_path_below k d)) V NV) X k x E2) as Y.
-  cbv beta in Y. rewrite D2 in Y. cbn in Y. apply negb_true_iff in Y. unfold below in Hb. congruence.
-Qed.
-
 Lemma rollback_wf_hyp i j m vw ch : rollback_wf i j m vw ch = true -> rollback_hyp i j m vw ch.
 Proof.
   unfold rollback_wf. rewrite !andb_true_iff.
@@ -268,32 +246,33 @@ Proof.
   split; [apply wfb_spec; exact W2 | apply cleanb_spec; [apply W2 | exact C2]].
 Qed.
 
-(* the candidate the model plugin validates for the rollback shows nothing that the old view did not show ... *)
-Theorem candidate_only_old ord1 i j m vw ch :
+(* the candidate the model plugin validates for the rollback (the loaded view with the rollback values applied by
+   applyChangeToConfig in the Go map order [ord]) shows exactly the old view *)
+Theorem candidate_restored ord1 ord i j m vw ch :
   rollback_wf i j m vw ch = true ->
   let rb := rollback_of vw ch in
   let m1 := commit_merge ord1 i m vw ch in
-  forall k val, In (k, val) (live (candidate_rb (overlay [] m1) rb)) -> In (k, val) (live vw).
+  live (candidate_rb (overlay [] m1) (permute ord rb)) = live vw.
 Proof.
   intros H rb m1. apply rollback_wf_hyp in H.
   destruct (commit_preserves i j ord1 m vw ch H) as (W1 & _). fold m1 in W1.
-  apply (rollback_candidate_only_old i j ord1 m vw ch (overlay [] m1) H).
+  assert (wf rb) as Wr by (apply rollback_of_spec; apply H).
+  apply (rollback_candidate i j ord1 m vw ch (overlay [] m1) (permute ord rb) H).
   - apply nd_overlay. constructor.
   - apply overlay_nil_same. apply W1.
+  - apply (permute_wf ord rb Wr).
+  - apply permute_same. apply Wr.
 Qed.
 
-(* ... and exactly the old view when the change deleted no container (a path that is not itself a stored value but has
-   live values beneath it) *)
-Theorem candidate_partial ord1 i j m vw ch :
-  rollback_wf i j m vw ch = true -> deletes_storedb vw ch = true ->
+(* ... for any loaded view of the stored map and any list order of the rollback values *)
+Theorem candidate_restored_any_view ord1 i j m vw ch vw1 rb' :
+  rollback_wf i j m vw ch = true ->
   let rb := rollback_of vw ch in
   let m1 := commit_merge ord1 i m vw ch in
-  live (candidate_rb (overlay [] m1) rb) = live vw.
+  nodupb vw1 = true -> sameb vw1 m1 = true -> nodupb rb' = true -> sameb rb' rb = true ->
+  live (candidate_rb vw1 rb') = live vw.
 Proof.
-  intros H D rb m1. apply rollback_wf_hyp in H.
-  destruct (commit_preserves i j ord1 m vw ch H) as (W1 & _). fold m1 in W1.
-  apply (rollback_candidate i j ord1 m vw ch (overlay [] m1) H).
-  - apply deletes_storedb_spec; [apply H | apply H | exact D].
-  - apply nd_overlay. constructor.
-  - apply overlay_nil_same. apply W1.
+  intros H rb m1 N1 S1 Nr Sr. apply rollback_wf_hyp in H.
+  apply nodupb_spec in N1. apply nodupb_spec in Nr. apply sameb_same in S1. apply sameb_same in Sr.
+  exact (rollback_candidate i j ord1 m vw ch vw1 rb' H N1 S1 Nr Sr).
 Qed.
